@@ -131,6 +131,12 @@ pub trait Prop: Sync {
     fn logging_allowed() -> bool {
         true
     }
+    /// violation classes whose verdict rests on measured CPU time: a finding of such a class that does not
+    /// reproduce from its replay file in a fresh process is machine noise and is discarded (with a note), whereas
+    /// for every other class a replay that does not reproduce is an error of the harness
+    fn timing_classes() -> &'static [&'static str] {
+        &[]
+    }
     fn extra_evidence(_tier: Tier) -> Value {
         json!({})
     }
@@ -600,6 +606,7 @@ pub fn run_batch<P: Prop>(o: &Opts) -> i32 {
     let mut n_viol = 0u64;
     let mut known_hit: BTreeMap<String, u64> = BTreeMap::new();
     let mut viol_summ: Vec<Value> = vec![];
+    let mut discarded_timing = 0u64;
 
     if let Some(i) = hung {
         // regenerate the scenario of the hung run (generation is a pure function of the seed)
@@ -661,6 +668,17 @@ pub fn run_batch<P: Prop>(o: &Opts) -> i32 {
                     key = format!("{} [needs a preceding run]", key);
                     break;
                 }
+            }
+        }
+        if !ok && P::timing_classes().contains(&v.class.as_str()) {
+            // a verdict on measured time: two more attempts, then it is noise of this machine, not a finding
+            ok = verify_replay_fresh(&path, &v) || verify_replay_fresh(&path, &v);
+            if !ok {
+                println!("  note: {} occurrences of the timing verdict {}:{} did not reproduce in three fresh processes - discarded as machine noise", count, v.class, v.key);
+                discarded_timing += count;
+                n_viol -= count;
+                let _ = std::fs::remove_file(&path);
+                continue;
             }
         }
         if !ok {
@@ -742,6 +760,7 @@ pub fn run_batch<P: Prop>(o: &Opts) -> i32 {
             "batch_event_log_hash": format!("{:016x}", batch_hash),
             "known_findings_matched": known_hit,
             "violations": viol_summ,
+            "timing_verdicts_discarded_as_machine_noise": discarded_timing,
             "sut_panics_owned_by_C01": sut_panics,
             "extra": P::extra_evidence(o.tier),
         },
